@@ -466,7 +466,18 @@ func report(prop, tier string, baseSeed uint64, pc *propCfg, b *build, results [
 	// listed known findings that were not observed this time still print their line
 	for _, k := range known {
 		if k.Status == "known" && k.Property == prop && !printed[k.Signature] {
-			fmt.Printf("KNOWN-FINDING: property=%s %s [signature %s; not re-observed in this run]\n", prop, k.What, k.Signature)
+			hits := 0
+			for sig, n := range agg.KnownHits {
+				if sigMatch(k.Signature, sig) {
+					hits += n
+				}
+			}
+			if hits > 0 {
+				fmt.Printf("KNOWN-FINDING: property=%s %s [signature %s; observed %d times in this run]\n", prop, k.What, k.Signature, hits)
+				knownSeen = append(knownSeen, k.Signature)
+			} else {
+				fmt.Printf("KNOWN-FINDING: property=%s %s [signature %s; not re-observed in this run]\n", prop, k.What, k.Signature)
+			}
 		}
 	}
 
